@@ -10,6 +10,7 @@ import N2V.Lemmas.Work
 import N2V.Lemmas.LoadSched
 import N2V.Lemmas.WorldSettled
 import N2V.Lemmas.WorkSkip
+import N2V.Lemmas.WorldSettledD
 namespace N2V.C02
 open N2V N2V.Work N2V.Load
 
@@ -146,6 +147,29 @@ theorem done_steps_are_settled (e0 : Env) (inv0 : GInv e0.g) (plain : Plain e0.g
     JS e0 (Run.build (schedGraph e0.g) a (choices adopt perms fin) e0).1
       (Run.build (schedGraph e0.g) a (choices adopt perms fin) e0).2.1 :=
   build_done_js e0 inv0 plain hnd0 hc0 a adopt perms fin n h
+
+/-- **What is Done is settled, with discovered dependencies**: for every environment `load::read`
+    returns (any log) and every project without input-rewriting commands, at the end of a
+    `run::build` that reports success without reloading - provided the dependencies the finished
+    steps remember are source files - invariant `Work.JD` holds: the graph only gained uniquely
+    named source files; the log is the old log plus one record per step that ran; the stat cache
+    tells the truth except about outputs of steps not Done; and for every Done non-phony step whose
+    named files (remembered dependencies included) exist, the LATEST record the log attributes to
+    it carries the manifest of the tree as it is now and names exactly its current discovered
+    dependencies. -/
+theorem done_steps_are_settled_with_depfiles (w : World) (m : Bytes) (l : Loader) (e0 : Env)
+    (hl : loadEnv w m = .ok (l, e0)) (plain : PlainD e0.g)
+    (a : Run.Args) (adopt : Bool) (perms : List (List Nat)) (fin : List (Nat × Sched.Term)) (n : Nat)
+    (h : (Run.build (schedGraph e0.g) a (choices adopt perms fin) e0).2.2 = .done n)
+    (hsrc : GoodD (Run.build (schedGraph e0.g) a (choices adopt perms fin) e0).1
+              (Run.build (schedGraph e0.g) a (choices adopt perms fin) e0).2.1) :
+    JD e0 (Run.build (schedGraph e0.g) a (choices adopt perms fin) e0).1
+      (Run.build (schedGraph e0.g) a (choices adopt perms fin) e0).2.1 := by
+  obtain ⟨inv0, gok, _⟩ := loadEnv_graph_ok w m l e0 hl
+  obtain ⟨hc0, _, _, _⟩ := loadEnv_frame w m l e0 hl
+  obtain ⟨_, l0⟩ := loadEnv_loaded0 w m l e0 hl
+  exact Run.build_done gok a _ (JG e0) (jd_spec e0 inv0 l0 plain adopt perms fin) e0
+    (jg_initial e0 a inv0 l0 hc0) n h hsrc
 
 /-! ### "Never skips a step that changed": what a clean answer guarantees -/
 
